@@ -297,7 +297,14 @@ def lst1(units, R):
             # if another tail-link store follows the child store on that path
             if ok and S not in P:
                 allP = P | PV
-                for px in P:
+                # the new first child was given its own back link before the switch (V->prev = X->child->prev; X->child->prev = V;
+                # X->child = V): the store through the old head is then the old head's link to V, not a misplaced tail link
+                tail_reads = {node_containing(cfg, pa).id for (pa, pl) in pstores if expr_str(strip_casts(pl['b'])) == Vs and
+                              pa['op'] == '=' and expr_str(strip_casts(pa['r'])) == xchild + '->prev'}
+                linked_first = any(cfg.dominates(pv, S) and not (cfg.reachable(pv, stop={S}) & K) for pv in PV & tail_reads) and \
+                    all(pa['op'] == '=' and expr_str(strip_casts(pa['r'])) == Vs for (pa, pl) in pstores
+                        if expr_str(strip_casts(pl['b'])) == xchild and node_containing(cfg, pa).id in P)
+                for px in ([] if linked_first else P):
                     if cfg.nodes[px].expr is not None and any(
                             c2.get('k') == 'call' and callee_name(c2) == 'cJSON_Delete' for c2 in walk(cfg.nodes[px].expr)):
                         continue
